@@ -33,6 +33,13 @@ extern "C" __attribute__((used)) void __ubsan_on_report(void) {
 std::vector<std::string> ubsan_take_reports() { std::vector<std::string> v; v.swap(g_ubsan_reports); return v; }
 extern "C" __attribute__((used)) const char *__tsan_default_options() { return "exitcode=77:halt_on_error=1:report_signal_unsafe=0"; }
 
+// per-run watchdog: a run that does not return within RUN_WATCHDOG_S seconds of real time is a hang; the handler prints the stack (so the
+// looping function is named in the signature) and exits with a distinctive status
+extern "C" void __sanitizer_print_stack_trace(void);
+static const unsigned RUN_WATCHDOG_S = 30;
+static void on_watchdog(int) { static const char m[] = "VSIM-HANG: run exceeded the watchdog\n"; (void) !write(2, m, sizeof m - 1); __sanitizer_print_stack_trace(); _exit(79); }
+static void watchdog_arm(unsigned s) { signal(SIGALRM, on_watchdog); alarm(s); }
+
 static std::vector<PropModule> &registry() { static std::vector<PropModule> r; return r; }
 void register_module(const PropModule &m) { registry().push_back(m); }
 const PropModule *find_module(const std::string &id) {
@@ -85,7 +92,9 @@ static bool de_result(const std::string &txt, RunResult &r) {
 static void classify_crash(const std::string &text, int status, std::string &kind, std::string &func) {
     kind = "signal"; func = "?";
     size_t p = text.find("ERROR: AddressSanitizer: ");
-    if (p != std::string::npos) {
+    if (text.find("VSIM-HANG") != std::string::npos) {
+        kind = "hang";
+    } else if (p != std::string::npos) {
         size_t e = text.find_first_of(" \n", p + 25);
         kind = "asan:" + text.substr(p + 25, e - (p + 25));
     } else if ((p = text.find("runtime error: ")) != std::string::npos) {
@@ -110,7 +119,7 @@ static void classify_crash(const std::string &text, int status, std::string &kin
         size_t h = line.find("#");
         size_t in_pos = line.find(" in ");
         if (h == std::string::npos || in_pos == std::string::npos) { continue; }
-        if (line.find("/repo/") == std::string::npos) { continue; }
+        if (line.find(kind == "hang" ? "/repo/matrixssl/" : "/repo/") == std::string::npos) { continue; }
         size_t s = in_pos + 4, e = line.find(' ', s);
         func = line.substr(s, e - s);
         break;
@@ -143,8 +152,9 @@ ChildOutcome run_in_child(const PropModule &m, const Plan &p, int timeout_s) {
         int efd = open(errpath.c_str(), O_WRONLY | O_CREAT | O_TRUNC, 0644);
         if (efd >= 0) { dup2(efd, 2); close(efd); }
         int nfd = open("/dev/null", O_WRONLY); if (nfd >= 0) { dup2(nfd, 1); close(nfd); }
-        alarm((unsigned) timeout_s);
+        watchdog_arm((unsigned) timeout_s);
         RunResult r = m.exec(p);
+        alarm(0);
         std::string s = ser_result(r);
         size_t off = 0; while (off < s.size()) { ssize_t w = write(fds[1], s.data() + off, s.size() - off); if (w <= 0) { break; } off += (size_t) w; }
         _exit(0);
@@ -158,8 +168,8 @@ ChildOutcome run_in_child(const PropModule &m, const Plan &p, int timeout_s) {
     if (WIFEXITED(status) && WEXITSTATUS(status) == 0 && de_result(txt, out.res)) { out.ok = true; }
     else {
         read_file(errpath, out.crash_text);
-        if (WIFSIGNALED(status) && WTERMSIG(status) == SIGALRM) { out.timeout = true; out.crash_kind = "hang"; out.crash_func = "?"; }
-        else { classify_crash(out.crash_text, status, out.crash_kind, out.crash_func); }
+        classify_crash(out.crash_text, status, out.crash_kind, out.crash_func);
+        if (out.crash_kind == "hang") { out.timeout = true; }
     }
     unlink(errpath.c_str());
     return out;
@@ -211,7 +221,7 @@ static Known *match_known(std::vector<Known> &ks, const std::string &prop, const
 static int g_min_execs = 0;
 static bool still_fails(const PropModule &m, const Plan &p, const std::string &cls) {
     g_min_execs++;
-    ChildOutcome o = run_in_child(m, p, 60);
+    ChildOutcome o = run_in_child(m, p, cls == "crash:hang" ? 5 : 60);   // a run that loops forever need not be waited for at full length again
     Verdict v = verdict_of(o);
     return v.bad && v.cls == cls;
 }
@@ -276,13 +286,17 @@ static void worker_main(const BatchCfg &b, const std::vector<Plan> &fixed, int w
         if (now_s() > b.deadline && i >= fixed.size()) { break; }
         Plan p = plan_for_index(b, fixed, i);
         wr(fd, "B " + std::to_string(i) + "\n");
+        watchdog_arm(RUN_WATCHDOG_S);
         RunResult r = b.m->exec(p);
+        alarm(0);
         std::string rs = ser_result(r);
         wr(fd, "R " + std::to_string(i) + " " + std::to_string(rs.size()) + "\n" + rs);
         bool want_plan = r.violation || i < 4 + fixed.size() || (i % 997) == 0;
         if (want_plan) { std::string pj = p.json(); wr(fd, "P " + std::to_string(i) + " " + std::to_string(pj.size()) + "\n" + pj); }
         if (b.det_every && (i % b.det_every) == 0 && !r.violation) {
+            watchdog_arm(RUN_WATCHDOG_S);
             RunResult r2 = b.m->exec(p);
+            alarm(0);
             wr(fd, "D " + std::to_string(i) + " " + (r2.fingerprint == r.fingerprint && r2.violation == r.violation ? "1" : "0") + "\n");
         }
     }
@@ -442,7 +456,8 @@ static int cmd_check(const std::string &id, int tier, uint64_t seed, int64_t run
     std::map<std::string, int> sig_count;
     for (auto &c : cands) { sig_count[c.v.sig]++; if (!by_sig.count(c.v.sig)) { by_sig[c.v.sig] = c; } }
     if (getenv("VSIM_LIST_SIGS")) {
-        for (auto &kv : sig_count) { Known *k = match_known(known, m->id, kv.first); printf("SIG %5d %s %s\n", kv.second, k ? "known" : "NEW  ", kv.first.c_str()); }
+        for (auto &kv : sig_count) { Known *k = match_known(known, m->id, kv.first); printf("SIG %5d %s %s  (e.g. run %llu)\n", kv.second, k ? "known" : "NEW  ", kv.first.c_str(), (unsigned long long) by_sig[kv.first].index);
+            if (!k && getenv("VSIM_LIST_DETAIL")) { std::string d = by_sig[kv.first].v.detail; if (d.size() > 1500) { d.resize(1500); } printf("    %s\n", d.c_str()); } }
         return 0;
     }
     int new_violations = 0, nondeterministic = 0, known_seen = 0;
@@ -571,7 +586,7 @@ static int cmd_run1(const std::string &id, int tier, uint64_t seed, uint64_t ind
     BatchCfg b; b.m = m; b.tier = tier; b.seed = seed; b.workers = 1; b.nruns = index + 1; b.deadline = 0; b.det_every = 0;
     std::vector<Plan> fixed; if (m->fixed_plans) { fixed = m->fixed_plans(tier); for (auto &p : fixed) { p.prop = m->id; } }
     Plan p = plan_for_index(b, fixed, index);
-    if (verbose) { printf("%s\n", p.json().c_str()); }
+    if (verbose) { printf("%s\n", p.json().c_str()); fflush(stdout); }
     RunResult r = m->exec(p);
     printf("%s", ser_result(r).c_str());
     return r.violation ? 1 : 0;
